@@ -17,10 +17,24 @@ Four exhaustive sub-enumerations (DESIGN section 4 / C17):
      mypy itself computes when the winner is the only source.
  (c) pattern sets: every ordered set of <= 3 sections over the pattern alphabet x every module name
      of depth <= 3 over {a,b,c} x every bool value assignment (lane c1) / every assignment of which
-     of two id-valued options a section sets (lane c2), against the same transcription.
+     of two id-valued options a section sets (lane c2), against the same transcription of the
+     ORDERING rule (which sections apply to a module is taken from mypy's one-section runs).
  (d) end-to-end witnesses: for a handful of option families a tiny program whose diagnostics change
      with the option, through the real mypy.main.main under every accepted source, plus conflicting
      source pairs: equal snapshots mean equal diagnostics.
+
+Tiers.  quick: (a) files mypy.ini / setup.cfg / pyproject.toml / --config-file cfg.ini|cfg.toml;
+(c) <= 3 sections, modules to depth 3, lane c1 in ini+toml, lane c2 in ini; (d) in-process with the
+fixture stubs.  thorough adds: (a) .mypy.ini and per-module sections through --config-file; (c) <= 4
+sections (c1), modules to depth 4, c2 in toml; (d) every witness again through `python -m mypy` with
+the bundled typeshed (one spelling per source), including the deprecated_calls_exclude family.
+
+Violation signatures are cause-level: "equiv|<option>|<partition of source kinds by observation>",
+"prec|<pair of source instances>|expected-winner=..|opt=..|fmt=.." (opt=* when most options fail for
+that pair), "prec|opt=<o>|winner-value=<v>|never-overrides-a-lower-source" (an option that loses in
+every pair kind) and "pattern-order|<levels of the applying sections>|expected-winner=..".  Lane (c) takes
+mypy's observed pattern/module relation as given (matching is not part of C17; doc-vs-code matching
+discrepancies are reported in coverage.lane_c.matching_discrepancies_not_judged, never as violations).
 """
 
 from __future__ import annotations
@@ -508,39 +522,37 @@ def judge_patterns(cfgs: list[dict], rows: list[Any], mods: list[str], defaults:
                         return defaults[tr]
                     return cfg["assign"][w] if lane == "c1" else [f"S{w}"]
 
-                w = model.doc_winner(settings, m)
+                # WHICH modules a pattern matches is not part of C17 (and the docs are ambiguous about a
+                # leading "*.X" and a bare "*"): mypy's own single-pattern relation, observed from the
+                # one-section runs, is taken as given; only the ORDERING among the applying sections is judged.
+                def applies(p: str, mm: str) -> bool:
+                    return obs_match.get((p, mm), model.doc_matches(p, mm))
+
+                w = model.doc_winner(settings, m, matches=applies)
                 exp = val(w)
                 got = row[mi] if lane == "c1" else row[mi][ti]
                 stats["evaluations"] += 1
-                n_match = sum(1 for s in settings if model.doc_matches(s["pattern"], m))
+                n_match = sum(1 for s in settings if applies(s["pattern"], m))
                 if n_match >= 2:
                     stats["module_matched_by_2_or_more_sections"] += 1
                 if w is not None:
                     stats["winner_" + model.LEVEL_NAMES[settings_level(settings, w)]] += 1
+                # statistic only: where the documented matching text, read literally, would change the result
+                disc = sorted({_shape(s["pattern"]) for s in settings if applies(s["pattern"], m) != model.doc_matches(s["pattern"], m)})
+                if disc:
+                    stats["evaluations_with_a_section_whose_matching_differs_from_the_docs"] += 1
+                    if val(model.doc_winner(settings, m)) != exp:
+                        for sh in disc:
+                            stats["doc_matching_would_change_result|shape=" + sh] += 1
                 if len(samples) < 3 and n_match >= 2 and lane == "c1" and len(set(cfg["assign"])) > 1:
                     samples.append({"sections": cfg["sections"], "values": cfg["assign"], "module": m,
                                     "documented_winner": cfg["sections"][w], "observed": got})
                 if got == exp:
                     continue
-                # cause: does mypy's OBSERVED pattern/module relation (from the single-section runs)
-                # explain the result under the documented ordering?
-                w2 = model.doc_winner(settings, m, matches=lambda p, mm: obs_match.get((p, mm), model.doc_matches(p, mm)))
-                if val(w2) == got:
-                    culprits = sorted({s["pattern"] for s in settings
-                                       if obs_match.get((s["pattern"], m), None) is not None
-                                       and obs_match[(s["pattern"], m)] != model.doc_matches(s["pattern"], m)})
-                    p0 = culprits[0] if culprits else "?"
-                    sig = (f"pattern-match|shape={_shape(p0)}|doc={'match' if model.doc_matches(p0, m) else 'no-match'}"
-                           f"|mypy={'match' if obs_match.get((p0, m)) else 'no-match'}")
-                    what = (f"section [mypy-{p0}] vs module {m}: the documented rule "
-                            f"{'matches' if model.doc_matches(p0, m) else 'does not match'}, mypy "
-                            f"{'applies' if obs_match.get((p0, m)) else 'does not apply'} the section "
-                            f"(sections {cfg['sections']}, values {cfg['assign']}: expected {exp!r}, got {got!r})")
-                else:
-                    lv = sorted({model.LEVEL_NAMES[s["level"]] for s in settings if model.doc_matches(s["pattern"], m)})
-                    sig = f"pattern-order|matching={'+'.join(lv)}|expected-winner={model.LEVEL_NAMES[settings_level(settings, w)] if w is not None else 'default'}"
-                    what = (f"sections {cfg['sections']} values {cfg['assign']} ({cfg['fmt']}), module {m}: documented "
-                            f"winner {cfg['sections'][w] if w is not None else 'none'} => {exp!r}, mypy gives {got!r}")
+                lv = sorted({model.LEVEL_NAMES[s["level"]] for s in settings if applies(s["pattern"], m)})
+                sig = f"pattern-order|matching={'+'.join(lv)}|expected-winner={model.LEVEL_NAMES[settings_level(settings, w)] if w is not None else 'default'}"
+                what = (f"sections {cfg['sections']} values {cfg['assign']} ({cfg['fmt']}), module {m}: documented "
+                        f"winner {cfg['sections'][w] if w is not None else 'none'} => {exp!r}, mypy gives {got!r}")
                 viols.append(Violation(sig, what, {"lane": "c", "cfg": cfg, "module": m, "track": tr,
                                                    "expected": exp, "observed": got}))
     return viols, stats, samples
@@ -908,13 +920,25 @@ def lane_c(table: dict, info_a: dict, ctx: Ctx, herr: list[str], only: list[dict
     if done != len(items):
         raise RuntimeError("lane c incomplete: " + "; ".join(herr[:3]))
     v = [x for sig in sorted(kept) for x in kept[sig]]
-    match_disc = sorted(f"{p}~{m}: doc={model.doc_matches(p, m)} mypy={o}" for (p, m), o in obs_match.items()
-                        if o != model.doc_matches(p, m))
+    by_shape: dict[str, dict[str, Any]] = {}
+    for (p, m), o in sorted(obs_match.items()):
+        d = model.doc_matches(p, m)
+        if o != d:
+            e = by_shape.setdefault(_shape(p), {"pattern_module_pairs": 0, "docs_read_literally": "match" if d else "no-match",
+                                                "mypy": "match" if o else "no-match", "examples": []})
+            e["pattern_module_pairs"] += 1
+            if len(e["examples"]) < 3:
+                e["examples"].append(f"[mypy-{p}] ~ {m}")
+    for k in list(stats):
+        if k.startswith("doc_matching_would_change_result|shape="):
+            sh = k.split("shape=", 1)[1]
+            by_shape.setdefault(sh, {})["evaluations_where_literal_doc_matching_would_change_the_result"] = stats.pop(k)
     return v, {"stats": dict(stats), "tracked_options": names, "patterns_accepted": accepted,
                "patterns_rejected_by_mypy": [p for p in PATTERNS if p not in accepted],
                "modules": len(mods), "module_depth": depth, "max_sections": maxsec, "configs": len(cfgs),
-               "single_pattern_match_discrepancies": match_disc[:60],
-               "single_pattern_match_discrepancy_count": len(match_disc),
+               "matching_relation": "mypy's own, observed from one-section configs (which modules a pattern matches is "
+                                    "not part of C17); only ordering among the applying sections is judged",
+               "matching_discrepancies_not_judged": by_shape,
                "violating_evaluations_by_signature": dict(counts), "samples": samples[:3]}
 
 
